@@ -169,6 +169,9 @@ func redactCommand(cmd *orderedmap.OrderedMap[string, any], shouldEagerRedact bo
 	if update, ok := cmd.Get("update"); ok {
 		if updateMap, ok := update.(*orderedmap.OrderedMap[string, any]); ok {
 			cmd.Set("update", redactQueryValues(updateMap, shouldEagerRedact, false, nil, []string{}))
+		} else if updateArr, ok := update.([]any); ok {
+			// pipeline-style update
+			cmd.Set("update", redactArrayValues(updateArr, shouldEagerRedact, false, false, []string{}))
 		}
 	}
 	if updates, ok := cmd.Get("updates"); ok {
@@ -189,6 +192,9 @@ func redactCommand(cmd *orderedmap.OrderedMap[string, any], shouldEagerRedact bo
 	if update, ok := cmd.Get("u"); ok {
 		if updateMap, ok := update.(*orderedmap.OrderedMap[string, any]); ok {
 			cmd.Set("u", redactQueryValues(updateMap, shouldEagerRedact, false, nil, []string{}))
+		} else if updateArr, ok := update.([]any); ok {
+			// pipeline-style update
+			cmd.Set("u", redactArrayValues(updateArr, shouldEagerRedact, false, false, []string{}))
 		}
 	}
 	if _, isInsert := cmd.Get("insert"); isInsert {
